@@ -1,9 +1,13 @@
 package props
 
 import (
+	"encoding/json"
 	"fmt"
+	"math/big"
+	"os"
 
 	"verifharness/core"
+	"verifharness/inproc"
 	"verifharness/refcrypto"
 	"verifharness/wworld"
 
@@ -103,4 +107,192 @@ func c10Wallets(r *core.Run) {
 		}
 		check()
 	})
+}
+
+// c10WalletTamper: the wallet as verifier. A mint's answer to a mint or swap request is altered in
+// one place on its way to the wallet (amount of a signature, C_, e, s, two signatures exchanged, the
+// keyset id); the wallet must notice (the operation fails) and must not keep a proof whose DLEQ proof a
+// third party would refuse. What the wallet stored is judged with the reference verification, as in
+// c10Wallets.
+func c10WalletTamper(r *core.Run) {
+	tag := "wallet-tamper"
+	if !r.Want(tag) {
+		return
+	}
+	classes := []string{"amount-doubled", "amount-halved", "amount-of-next-signature", "C_-plus-G", "C_-of-next-signature", "e-bit-flipped", "s-bit-flipped", "signatures-exchanged", "e-and-s-exchanged"}
+	for _, fee := range []uint{0, 100} {
+		w, err := wworld.New(r.Seed*4241+int64(fee), []uint{fee}, false)
+		if err != nil {
+			r.Violate("setup", err.Error(), tag, nil)
+			return
+		}
+		func() {
+			defer w.Close()
+			m := w.Mints[0]
+			var armed string // class to apply to the next answer that carries signatures
+			var applied bool
+			w.T.SetHooks(m.Host, &inproc.HostHooks{Rewrite: func(rec *inproc.Record, body []byte) []byte {
+				if armed == "" || applied || rec.Status != 200 || (rec.Path != "/v1/mint/bolt11" && rec.Path != "/v1/swap") {
+					return body
+				}
+				nb, ok := c10Tamper(body, armed)
+				if ok {
+					applied = true
+					return nb
+				}
+				return body
+			}})
+			defer w.T.SetHooks(m.Host, nil)
+			storeOK := func(wn *wworld.WalletNode, sig, class, op string) {
+				m.Env.RefreshKeysets()
+				for _, p := range wn.Store.GetProofs() {
+					if p.DLEQ == nil || p.DLEQ.R == "" {
+						continue
+					}
+					ks := m.Env.Keysets[p.Id]
+					if ks == nil {
+						continue
+					}
+					K, ok := ks.Keys[p.Amount]
+					e, e1 := refcrypto.ScalarHex(p.DLEQ.E)
+					sc, e2 := refcrypto.ScalarHex(p.DLEQ.S)
+					rr, e3 := refcrypto.ScalarHex(p.DLEQ.R)
+					C, e4 := refcrypto.ParseHex(p.C)
+					bad := !ok || e1 != nil || e2 != nil || e3 != nil || e4 != nil
+					if !bad {
+						bad = !refcrypto.VerifyDLEQ(e, sc, K, refcrypto.Blind(p.Secret, rr), refcrypto.Add(C, refcrypto.Mul(rr, K)))
+					}
+					if bad {
+						r.Violate("wallet-tamper:stored-proof-does-not-verify:"+class+":"+op, fmt.Sprintf("after a %s answer altered by %q the wallet holds a proof of %d whose DLEQ proof does not verify for the mint's key", op, class, p.Amount), sig, p)
+						return
+					}
+				}
+			}
+			for ci, class := range classes {
+				for _, op := range []string{"mint", "swap"} {
+					sig := fmt.Sprintf("%s/fee%d/%s/%s", tag, fee, class, op)
+					// a wallet of its own for every case (one that has refused an answer does not move its
+					// counters on and is refused by the mint from then on), holding one proof of 64
+					wn, err := w.AddWallet(fmt.Sprintf("victim-%d-%s", ci, op), 0)
+					if err != nil {
+						r.Inconclusive("wallet: " + err.Error())
+						continue
+					}
+					if _, err := wn.Fund(64, m.URL); err != nil {
+						r.Inconclusive("fund: " + err.Error())
+						continue
+					}
+					armed, applied = class, false
+					var opErr error
+					if op == "mint" {
+						_, opErr = wn.Fund(uint64(21+2*ci), m.URL) // several signatures of different amounts
+					} else {
+						_, opErr = wn.SendToPubkey(uint64(11+2*ci), m.URL, wn, nil, false) // locking always goes through a swap
+					}
+					armed = ""
+					if !applied {
+						r.Count("wallet_tamper_not_applicable", 1) // e.g. a single signature and a class that needs two, or no swap was needed
+						if os.Getenv("VERIF_DEBUG_LOG") != "" {
+							fmt.Fprintf(os.Stderr, "wallet-tamper not applied: %s %s: %v\n", class, op, opErr)
+						}
+						continue
+					}
+					r.Eval(sig, true)
+					r.Count("wallet_tampered_answers", 1)
+					if opErr == nil {
+						r.Violate("wallet-tamper:accepted:"+class+":"+op, fmt.Sprintf("the wallet accepted a %s answer in which %s", op, class), sig, nil)
+					}
+					storeOK(wn, sig, class, op)
+				}
+			}
+		}()
+	}
+}
+
+// c10Tamper alters one place of a {"signatures": [...]} answer.
+func c10Tamper(body []byte, class string) ([]byte, bool) {
+	var resp map[string]json.RawMessage
+	if json.Unmarshal(body, &resp) != nil {
+		return nil, false
+	}
+	type dq struct {
+		E string `json:"e"`
+		S string `json:"s"`
+	}
+	type sg struct {
+		Amount uint64 `json:"amount"`
+		C_     string `json:"C_"`
+		Id     string `json:"id"`
+		DLEQ   *dq    `json:"dleq,omitempty"`
+	}
+	var sigs []sg
+	if json.Unmarshal(resp["signatures"], &sigs) != nil || len(sigs) == 0 || sigs[0].DLEQ == nil {
+		return nil, false
+	}
+	flip := func(h string) string {
+		b := []byte(h)
+		i := len(b) - 1
+		if b[i] == '0' {
+			b[i] = '1'
+		} else {
+			b[i] = '0'
+		}
+		return string(b)
+	}
+	other := -1
+	for i := 1; i < len(sigs); i++ {
+		if sigs[i].Amount != sigs[0].Amount {
+			other = i
+			break
+		}
+	}
+	switch class {
+	case "amount-doubled":
+		sigs[0].Amount *= 2
+	case "amount-halved":
+		k := -1
+		for i := range sigs {
+			if sigs[i].Amount >= 2 {
+				k = i
+				break
+			}
+		}
+		if k < 0 {
+			return nil, false
+		}
+		sigs[k].Amount /= 2
+	case "amount-of-next-signature":
+		if other < 0 {
+			return nil, false
+		}
+		sigs[0].Amount = sigs[other].Amount
+	case "C_-plus-G":
+		p, err := refcrypto.ParseHex(sigs[0].C_)
+		if err != nil {
+			return nil, false
+		}
+		sigs[0].C_ = refcrypto.Add(p, refcrypto.BaseMul(big.NewInt(1))).Hex()
+	case "C_-of-next-signature":
+		if other < 0 {
+			return nil, false
+		}
+		sigs[0].C_ = sigs[other].C_
+	case "e-bit-flipped":
+		sigs[0].DLEQ.E = flip(sigs[0].DLEQ.E)
+	case "s-bit-flipped":
+		sigs[0].DLEQ.S = flip(sigs[0].DLEQ.S)
+	case "signatures-exchanged":
+		if other < 0 {
+			return nil, false
+		}
+		sigs[0], sigs[other] = sigs[other], sigs[0]
+	case "e-and-s-exchanged":
+		sigs[0].DLEQ.E, sigs[0].DLEQ.S = sigs[0].DLEQ.S, sigs[0].DLEQ.E
+	default:
+		return nil, false
+	}
+	nb, _ := json.Marshal(sigs)
+	resp["signatures"] = nb
+	out, _ := json.Marshal(resp)
+	return out, true
 }
